@@ -445,10 +445,81 @@ def f_bcast(rng, seed):
     return "bcast:%s%s" % (kind, "x".join(map(str, shp[1:]))), n.desc([out])
 
 
+def f_memcpy(rng, seed):
+    """memory-only operator that cannot be bypassed (its input has a second consumer): stays as a feature-map DMA"""
+    n = Net(seed)
+    H = W = rng.choice([4, 8])
+    C = rng.choice([17, 8, 24, 33, 16])
+    x = n.fm("in", [1, H, W, rng.choice([8, 16])], is_input=True)
+    t = n.conv(x, C, 3)
+    r = n.reshape(t, rng.choice([[1, H * W, 1, C], [1, 1, H * W, C], [1, H, W * C, 1]]))
+    u = n.conv(t, rng.choice([8, C]), 1)
+    outs = [r, u] if rng.random() < 0.6 else [u, r]
+    if rng.random() < 0.3:
+        outs = [n.eltwise("ADD", n.reshape(r, [1, H, W, C]), t), u]
+    return "memcpy:C%d" % C, n.desc(outs)
+
+
+def f_lutcascade(rng, seed):
+    """a LUT operator inside a cascade with non-LUT operators interleaved, biased to 16-bank accelerators and Size"""
+    n = Net(seed)
+    H, W, C = rng.choice([16, 24, 32]), rng.choice([8, 16]), rng.choice([8, 16])
+    x = n.fm("in", [1, H, W, C], is_input=True)
+    x = n.conv(x, C, 3)
+    x = n.unary(rng.choice(["TANH", "LOGISTIC", "LEAKY_RELU"]), x)
+    x = n.conv(x, C, 3)
+    x = n.conv(x, C, rng.choice([1, 3]))
+    hint = {"optimise": rng.choice(["Size", "Size", "Performance"])}
+    if rng.random() < 0.7:
+        hint["accel"] = rng.choice(["ethos-u55-64", "ethos-u55-32"])
+        hint.update(config=None, system_config=None, memory_mode=None)
+    return "lutcascade", n.desc([x]), hint
+
+
+def f_s2cascade(rng, seed):
+    """cascade with a stride-2 consumer that does not reach the last IFM column/row (1x1 stride 2 on an even extent)"""
+    n = Net(seed)
+    H, W, C = rng.choice([16, 32]), rng.choice([16, 32]), rng.choice([8, 16])
+    x = n.fm("in", [1, H, W, C], is_input=True)
+    x = n.conv(x, C, rng.choice([3, 5]))
+    x = n.conv(x, C, rng.choice([1, 1, 2]), stride=2, pad=rng.choice(["SAME", "VALID"]))
+    x = n.conv(x, C, 3)
+    x = n.conv(x, C, 1)
+    hint = {"optimise": rng.choice(["Size", "Size", "Performance"])}
+    return "s2cascade", n.desc([x]), hint
+
+
+def f_cpuouts(rng, seed):
+    """network outputs produced by CPU operators that are not the last thing to run; multi-output CPU operators"""
+    n = Net(seed)
+    H, W, C = rng.choice([4, 8]), rng.choice([4, 8]), rng.choice([8, 16])
+    style = rng.choice(["early_cpu_output", "topk", "early_cpu_output"])
+    x = n.fm("in", [1, H, W, C], is_input=True)
+    if style == "early_cpu_output":
+        a = n.cpu_op(x, "ROUND")
+        b = n.pool(a, "MAX_POOL_2D", k=2, stride=1)
+        c = n.cpu_op(b, "ROUND")
+        d = n.pool(c, "MAX_POOL_2D", k=2, stride=1)
+        e = n.cpu_op(d, "ROUND")
+        outs = [a, e] if rng.random() < 0.6 else [a, c, e]
+    else:
+        kk = 4
+        v = n.fm("topk_v", [1, H, W, kk], n.t[x]["type"], n.t[x]["scale"][0], n.t[x]["zp"][0])
+        i = n.fm("topk_i", [1, H, W, kk], "INT32", None)
+        kt = n.const("k", [], "INT32", data=[kk])
+        n.op("TOPK_V2", [x, kt], [v, i], ["TopKV2Options", {}])
+        b = n.pool(v, "MAX_POOL_2D", k=2, stride=1)
+        c = n.cpu_op(b, "ROUND")
+        d = n.pool(c, "MAX_POOL_2D", k=2, stride=1)
+        outs = [i, d]
+    return "cpuouts:" + style, n.desc(outs)
+
+
 FAMILIES = {"single": f_single, "chain": f_chain, "branch": f_branch, "mixed": f_mixed, "lut": f_lut,
             "wide": f_wide, "u8i16": f_u8i16, "widen": f_widen, "inplace": f_inplace, "lutmany": f_lutmany,
             "resize": f_resize, "pruned": f_pruned, "diamonds": f_diamonds, "stride3": f_stride3, "tied": f_tied,
-            "bigchain": f_bigchain, "nncascade": f_nncascade, "bcast": f_bcast}
+            "bigchain": f_bigchain, "nncascade": f_nncascade, "bcast": f_bcast, "memcpy": f_memcpy,
+            "lutcascade": f_lutcascade, "s2cascade": f_s2cascade, "cpuouts": f_cpuouts}
 
 
 def all_singles(seed, accel=None):
